@@ -650,6 +650,70 @@ def parse_effects():
     return effects, unsafes, features
 
 
+# ------------------------------------------------------------------ lifetimes of the unsafe sites (C11)
+
+def parse_lifetimes():
+    facts = []
+
+    def fact(name, ok):
+        facts.append(f"({coq_str(name)}, {'true' if ok else 'false'})")
+    # OsuGradualDifficulty: self-referential through boxed slices
+    nc = strip_test_modules(strip_comments(read("src/osu/difficulty/gradual.rs")))
+    sm = re.search(r"pub struct OsuGradualDifficulty\s*\{(.*?)\n\}", nc, flags=re.S)
+    fields = [f.strip().split(":")[0].replace("pub(crate)", "").strip() for f in sm.group(1).split(",") if f.strip()] if sm else []
+    fact("osu: diff_objects is declared (hence dropped) before osu_objects",
+         "diff_objects" in fields and "osu_objects" in fields and fields.index("diff_objects") < fields.index("osu_objects"))
+    fact("osu: diff_objects is a boxed slice", re.search(r"diff_objects:\s*Box<\[OsuDifficultyObject<'static>\]>", nc) is not None)
+    nn = norm(nc)
+    fact("osu: the referents are owned through a raw pointer (OsuObjects { objects: NonNull<[OsuObject]> }), not a Box that moves would re-tag",
+         re.search(r"struct OsuObjects\s*\{\s*objects:\s*NonNull<\[OsuObject\]>,?\s*\}", nn) is not None)
+    fact("osu: the pointer is leaked from a Box in new and released by Box::from_raw in Drop only",
+         re.search(r"objects: NonNull::from\(Box::leak\(objects\)\)", nn) is not None and
+         re.search(r"impl Drop for OsuObjects \{ fn drop\(&mut self\) \{ drop\(unsafe \{ Box::from_raw\(self\.objects\.as_ptr\(\)\) \}\); \} \}", nn) is not None and
+         len(re.findall(r"Box::from_raw", nn)) == 1)
+    fact("osu: OsuObjects hands out its objects only through iter_mut (Pin) and is_empty reads the length only",
+         len(re.findall(r"self\.objects\b", nn)) == 3 and "self.objects.len() == 0" in nn)
+    fact("osu: no assignment to self.osu_objects / self.diff_objects after construction",
+         re.search(r"self\.(osu_objects|diff_objects)\s*(=[^=]|\.push|\.clear|\.truncate|\.swap|\.sort|\.retain)", nc) is None)
+    fact("osu: OsuGradualDifficulty is not Clone",
+         re.search(r"impl[^{]*Clone\s+for\s+OsuGradualDifficulty", nc) is None and
+         re.search(r"derive\([^)]*Clone[^)]*\)\s*pub struct OsuGradualDifficulty", norm(nc)) is None)
+    fact("osu: mutable access to the objects only through Pin", "Pin<&mut OsuObject>" in nc)
+    # TaikoGradualDifficulty: an iterator into its own vector
+    nt = strip_test_modules(strip_comments(read("src/taiko/difficulty/gradual.rs")))
+    fact("taiko: diff_objects_iter is an Iter<'static, _> over diff_objects",
+         re.search(r"diff_objects_iter:\s*Iter<'static,", nt) is not None and
+         re.search(r"extend_lifetime\(diff_objects\.iter\(\)\)", nt) is not None)
+    fact("taiko: the referent is a Vec (raw pointer inside, not re-tagged by moves)",
+         re.search(r"pub struct TaikoDifficultyObjects\s*\{\s*pub objects: Vec<RefCount<TaikoDifficultyObject>>", norm(strip_comments(read("src/taiko/difficulty/object.rs")))) is not None and
+         re.search(r"diff_objects:\s*TaikoDifficultyObjects,", nt) is not None)
+    fact("taiko: no assignment to / mutation of self.diff_objects after construction",
+         re.search(r"self\.diff_objects\s*(=[^=]|\.push|\.clear|\.truncate|\.swap|\.sort|\.retain|\.objects)", nt) is None)
+    fact("taiko: TaikoGradualDifficulty is not Clone",
+         re.search(r"impl[^{]*Clone\s+for\s+TaikoGradualDifficulty", nt) is None and
+         re.search(r"derive\([^)]*Clone[^)]*\)\s*pub struct TaikoGradualDifficulty", norm(nt)) is None)
+    fact("taiko: TaikoDifficultyObjects::push is not called outside create_difficulty_objects",
+         len(re.findall(r"diff_objects\.push\(", strip_test_modules(strip_comments(read("src/taiko/difficulty/mod.rs"))))) == 1 and
+         "diff_objects.push(" not in nt)
+    # decoder scratch buffer
+    nd = strip_test_modules(strip_comments(read("src/model/beatmap/decode.rs")))
+    body = None
+    for name, params, ret, b, _ in functions(nd):
+        if name == "point_split":
+            body = norm(b)
+    shape = (r"^self\.point_split\.extend\(point_split\.map\(std::ptr::from_ref\)\); let ptr = self\.point_split\.as_ptr\(\); "
+             r"let len = self\.point_split\.len\(\); let point_split = unsafe \{ slice::from_raw_parts\(ptr\.cast\(\), len\) \}; "
+             r"let res = f\(self, point_split\); self\.point_split\.clear\(\); res$")
+    fact("decoder: point_split is extend / from_raw_parts / call / clear / return", body is not None and re.match(shape, body) is not None)
+    fact("decoder: the scratch buffer is touched nowhere else (4 uses in point_split, 1 initialiser)",
+         len(re.findall(r"(?:self|this|state)\.point_split\b(?!\()", nd)) == 4 and len(re.findall(r"\bpoint_split: Vec::with_capacity", nd)) == 1)
+    # the remaining unsafe blocks
+    na = strip_comments(read("src/any/difficulty/mod.rs"))
+    fact("Difficulty::clock_rate: new_unchecked is applied to clamp(0.01, 100.0).to_bits()",
+         re.search(r"let clock_rate = clock_rate\.clamp\(0\.01, 100\.0\)\.to_bits\(\);.*?NonZeroU64::new_unchecked\(clock_rate\)", na, flags=re.S) is not None)
+    return facts
+
+
 # ------------------------------------------------------------------ emit
 
 def generate():
@@ -660,6 +724,7 @@ def generate():
     trees, delegate, flags, entries = parse_conversion()
     dpay, ppay, routes, perf_arms, diff_arms, map_arms, calc = parse_attrs_path()
     effects, unsafes, features = parse_effects()
+    lifetimes = parse_lifetimes()
     L = []
     A = L.append
     A("(* GENERATED by tools/extract.py from the repository's current source - do not edit.")
@@ -724,6 +789,8 @@ def generate():
     A("Definition effect_sites : list (string * string * Z) :=\n  " + coq_list(effects).replace("; (", ";\n   (") + ".")
     A("Definition unsafe_sites : list (string * Z) :=\n  " + coq_list(unsafes).replace("; (", ";\n   (") + ".")
     A("Definition feature_sites : list (string * string) :=\n  " + coq_list(features).replace("; (", ";\n   (") + ".")
+    A("(* facts the ownership argument of C11 rests on, each checked against the current source *)")
+    A("Definition lifetime_facts : list (string * bool) :=\n  " + coq_list(lifetimes).replace("; (", ";\n   (") + ".")
     return "\n".join(L) + "\n"
 
 
